@@ -83,6 +83,51 @@ static std::string run_empty(std::map<std::string, std::string>& f)
     return s.str();
 }
 
+// in : hist N=.. D=.. d=2 k=.. seed=1 ops=pca:copy,isomap:move,mds:cctor,... data=<rows> [sel= alldata=]
+// out: ok steps=<n> | has=<0|1> shas=<0|1> T=<Nxd or -> Y=<Nxd> | ...      one block per op
+//      ONE TapkeeOutput variable is reused across the whole sequence; `copy`: cur = res; `move`: cur = std::move(res);
+//      `cctor`: TapkeeOutput tmp(res); cur = tmp;   after every assignment: has = cur has a projection, shas = a
+//      copy-constructed snapshot of cur has one, T row i = cur.projection(x_i), Y = cur.embedding
+static std::string run_hist(std::map<std::string, std::string>& f)
+{
+    const int N = std::stoi(f["N"]);
+    DenseMatrix X = vs::all_data(f).transpose();
+    std::vector<IndexType> idx = vs::ids(f, N);
+    auto ops = vh::split(f["ops"], ',');
+    TapkeeOutput cur;
+    std::ostringstream s;
+    s << "ok steps=" << ops.size();
+    for (auto& op : ops)
+    {
+        auto t = vh::split(op, ':');
+        f["method"] = t[0];
+        TapkeeOutput res = run_method(f, X);
+        if (t[1] == "copy")
+            cur = res;
+        else if (t[1] == "move")
+            cur = std::move(res);
+        else
+        {
+            TapkeeOutput tmp(res);
+            cur = tmp;
+        }
+        TapkeeOutput snap(cur);
+        const bool has = (bool)cur.projection.implementation, shas = (bool)snap.projection.implementation;
+        s << " | has=" << (has ? 1 : 0) << " shas=" << (shas ? 1 : 0);
+        if (has)
+        {
+            DenseMatrix T(N, cur.embedding.cols());
+            for (int i = 0; i < N; ++i)
+                T.row(i) = cur.projection(DenseVector(X.col(idx[i]))).transpose();
+            s << " T=" << vs::mat(T);
+        }
+        else
+            s << " T=-";
+        s << " Y=" << vs::mat(cur.embedding);
+    }
+    return s.str();
+}
+
 int main()
 {
     tapkee::Logging::instance().disable_info();
@@ -93,8 +138,8 @@ int main()
             continue;
         auto f = vh::fields(line);
         vh::case_alarm(300); // per-case watchdog: a hang becomes the observation abort:timeout for this case
-        bool empty = line.rfind("empty ", 0) == 0;
-        std::cout << vs::guarded([&] { return empty ? run_empty(f) : run_proj(f); }) << std::endl;
+        bool empty = line.rfind("empty ", 0) == 0, hist = line.rfind("hist ", 0) == 0;
+        std::cout << vs::guarded([&] { return hist ? run_hist(f) : empty ? run_empty(f) : run_proj(f); }) << std::endl;
     }
     return 0;
 }
